@@ -151,3 +151,29 @@ extern "C" __attribute__((optnone, noinline)) void harness_perc(void)
     }
     VWITNESS();
 }
+
+// ---- a mode switch clears the XG drum-channel role: CC0 = 126/127 in XG (or GM) mode makes a melodic
+// channel a percussion channel; after a GS reset the channel is melodic again (GS has no such rule)
+extern "C" __attribute__((optnone, noinline)) void harness_gsreset(void)
+{
+    g_dev = opn2_init(44100);
+    VASSUME(g_dev != NULL);
+    g_p = player_of(g_dev);
+    g_p->m_synthMode = MODE;                       // XG (2) or GM (0)
+    tag_entry(forge_bank(g_p, 0x0100), PROG, T_LSB0, false, 0);
+    tag_entry(forge_bank(g_p, 0x0000), PROG, T_BANK0, false, 0);
+    tag_entry(forge_bank(g_p, OPN2::PercussionTag | 0), 60, T_PERC, false, 60);
+    tag_entry(forge_bank(g_p, OPN2::PercussionTag | PROG), 60, T_PERC_KIT, false, 60);
+    static const unsigned char gs_reset[11] = { 0xF0, 0x41, 0x10, 0x42, 0x12, 0x40, 0x00, 0x7F, 0x00, 0x41, 0xF7 };
+    unsigned char vel = nondet_uchar();
+    VASSUME(vel >= 1 && vel <= 127);
+    if(nondet_uchar() & 1) opn2_rt_controllerChange(g_dev, 0, 0, 126); else opn2_rt_controllerChange(g_dev, 0, 0, 127);
+    VASSERT(g_p->m_midiChannels[0].is_xg_percussion, "XG bank MSB 126/127 makes the channel a percussion channel");
+    VASSERT(opn2_rt_systemExclusive(g_dev, gs_reset, sizeof gs_reset) == 1, "GS reset accepted");
+    opn2_rt_bankChange(g_dev, 0, 0x0100);
+    opn2_rt_patchChange(g_dev, 0, PROG);
+    int r = opn2_rt_noteOn(g_dev, 0, 60, vel);
+    VASSERT(r == 1, "note accepted");
+    VASSERT(g_tap.reg[0][0][0xB0] == T_LSB0, "after the GS mode switch the channel plays the melodic instrument at (MSB, 0, program), not a drum kit entry");
+    VWITNESS();
+}
